@@ -943,17 +943,26 @@ def _build_compare(node: ast.Compare, parent: Module | Class, **kwargs: Any) -> 
     )
 
 
+def _function_scope(parent: Module | Class) -> Module | Class:
+    # The body of a class is not an enclosing scope for the functions nested in it, lambdas and comprehensions
+    # included: from there, Python looks names up in the enclosing functions and in the module only.
+    while parent.is_class and parent.parent is not None:
+        parent = parent.parent  # type: ignore[assignment]
+    return parent
+
+
 def _build_comprehension(
     node: ast.comprehension,
     parent: Module | Class,
     *,
+    iter_parent: Module | Class | None = None,
     iter_local_names: frozenset[str] | None = None,
     **kwargs: Any,
 ) -> Expr:
     iter_kwargs = kwargs if iter_local_names is None else {**kwargs, "local_names": iter_local_names}
     return ExprComprehension(
         _build(node.target, parent, **kwargs),
-        _build(node.iter, parent, **iter_kwargs),
+        _build(node.iter, iter_parent or parent, **iter_kwargs),
         [_build(condition, parent, **kwargs) for condition in node.ifs],
         is_async=bool(node.is_async),
     )
@@ -965,9 +974,10 @@ def _build_generators(
     *,
     local_names: frozenset[str] = frozenset(),
     **kwargs: Any,
-) -> tuple[list[Expr], dict[str, Any]]:
+) -> tuple[list[Expr], Module | Class, dict[str, Any]]:
     # The targets of a comprehension are local to it: they are not names of the enclosing scopes.
-    # Only the iterable of the first `for` clause is evaluated outside of the comprehension.
+    # Only the iterable of the first `for` clause is evaluated outside of the comprehension,
+    # the rest is evaluated in a function scope of its own.
     targets = {
         name.id
         for generator in generators
@@ -975,15 +985,21 @@ def _build_generators(
         if isinstance(name, ast.Name) and isinstance(name.ctx, ast.Store)
     }
     kwargs["local_names"] = local_names | targets
-    return [
-        _build_comprehension(
-            generator,
-            parent,
-            iter_local_names=local_names if index == 0 else None,
-            **kwargs,
-        )
-        for index, generator in enumerate(generators)
-    ], kwargs
+    scope = _function_scope(parent)
+    return (
+        [
+            _build_comprehension(
+                generator,
+                scope,
+                iter_parent=parent if index == 0 else None,
+                iter_local_names=local_names if index == 0 else None,
+                **kwargs,
+            )
+            for index, generator in enumerate(generators)
+        ],
+        scope,
+        kwargs,
+    )
 
 
 def _build_constant(
@@ -1036,8 +1052,8 @@ def _build_dict(node: ast.Dict, parent: Module | Class, **kwargs: Any) -> Expr:
 
 
 def _build_dictcomp(node: ast.DictComp, parent: Module | Class, **kwargs: Any) -> Expr:
-    generators, kwargs = _build_generators(node.generators, parent, **kwargs)
-    return ExprDictComp(_build(node.key, parent, **kwargs), _build(node.value, parent, **kwargs), generators)
+    generators, scope, kwargs = _build_generators(node.generators, parent, **kwargs)
+    return ExprDictComp(_build(node.key, scope, **kwargs), _build(node.value, scope, **kwargs), generators)
 
 
 def _build_formatted(
@@ -1051,8 +1067,8 @@ def _build_formatted(
 
 
 def _build_generatorexp(node: ast.GeneratorExp, parent: Module | Class, **kwargs: Any) -> Expr:
-    generators, kwargs = _build_generators(node.generators, parent, **kwargs)
-    return ExprGeneratorExp(_build(node.elt, parent, **kwargs), generators)
+    generators, scope, kwargs = _build_generators(node.generators, parent, **kwargs)
+    return ExprGeneratorExp(_build(node.elt, scope, **kwargs), generators)
 
 
 def _build_ifexp(node: ast.IfExp, parent: Module | Class, **kwargs: Any) -> Expr:
@@ -1087,7 +1103,8 @@ def _build_lambda(
     **kwargs: Any,
 ) -> Expr:
     parameters = get_parameters(node.args)
-    # The parameters of a lambda are local to its body; their default values are evaluated outside of it.
+    # The parameters of a lambda are local to its body, which is a function scope;
+    # their default values are evaluated outside of it.
     default_kwargs = {**kwargs, "parse_strings": False, "local_names": local_names}
     return ExprLambda(
         parameters=[
@@ -1101,7 +1118,12 @@ def _build_lambda(
             )
             for name, _, kind, default in parameters
         ],
-        body=_build(node.body, parent, local_names=local_names | {name for name, *_ in parameters}, **kwargs),
+        body=_build(
+            node.body,
+            _function_scope(parent),
+            local_names=local_names | {name for name, *_ in parameters},
+            **kwargs,
+        ),
     )
 
 
@@ -1110,8 +1132,8 @@ def _build_list(node: ast.List, parent: Module | Class, **kwargs: Any) -> Expr:
 
 
 def _build_listcomp(node: ast.ListComp, parent: Module | Class, **kwargs: Any) -> Expr:
-    generators, kwargs = _build_generators(node.generators, parent, **kwargs)
-    return ExprListComp(_build(node.elt, parent, **kwargs), generators)
+    generators, scope, kwargs = _build_generators(node.generators, parent, **kwargs)
+    return ExprListComp(_build(node.elt, scope, **kwargs), generators)
 
 
 def _build_name(
@@ -1134,8 +1156,8 @@ def _build_set(node: ast.Set, parent: Module | Class, **kwargs: Any) -> Expr:
 
 
 def _build_setcomp(node: ast.SetComp, parent: Module | Class, **kwargs: Any) -> Expr:
-    generators, kwargs = _build_generators(node.generators, parent, **kwargs)
-    return ExprSetComp(_build(node.elt, parent, **kwargs), generators)
+    generators, scope, kwargs = _build_generators(node.generators, parent, **kwargs)
+    return ExprSetComp(_build(node.elt, scope, **kwargs), generators)
 
 
 def _build_slice(node: ast.Slice, parent: Module | Class, **kwargs: Any) -> Expr:
